@@ -5,8 +5,8 @@ VERIF = os.path.dirname(os.path.dirname(os.path.abspath(__file__)))
 REPO = os.environ.get("WAX_REPO", "/repo")
 LEAN = os.path.join(VERIF, "lean")
 HARNESS_DIR = os.path.join(VERIF, "harness")
-HARNESS = os.path.join(HARNESS_DIR, "target", "release", "waxh")
-MODEL = os.path.join(LEAN, ".lake", "build", "bin", "waxmodel")
+HARNESS = os.environ.get("WAXH", os.path.join(HARNESS_DIR, "target", "release", "waxh"))
+MODEL = os.environ.get("WAXMODEL", os.path.join(LEAN, ".lake", "build", "bin", "waxmodel"))
 STD_AXIOMS = {"propext", "Classical.choice", "Quot.sound"}
 FORBIDDEN = re.compile(r"\b(sorry|admit|native_decide|bv_decide|implemented_by)\b|^\s*axiom\s|\bunsafe\s|maxHeartbeats\s+0\b")
 ENV = dict(os.environ, CARGO_NET_OFFLINE="true")
